@@ -1003,3 +1003,6 @@ class IsoHybrid:
 
         self.primary_gpt.parts[2].first_lba = current_extent * 4
         self.primary_gpt.parts[2].last_lba = (current_extent * 4) + sector_count - 1
+
+        self.secondary_gpt.parts[2].first_lba = current_extent * 4
+        self.secondary_gpt.parts[2].last_lba = (current_extent * 4) + sector_count - 1
